@@ -371,7 +371,7 @@ def dist(
     if isinstance(p, PlaneTensor) and isinstance(q, SubspaceTensor):
         return dist(p, PointCollection.from_array(q.basis_matrix[0, :]))
 
-    from geometer.shapes import PolygonTensor, Polyhedron, SegmentTensor
+    from geometer.shapes import PolygonTensor, Polyhedron, SegmentCollection, SegmentTensor
 
     if isinstance(p, PointTensor) and isinstance(q, SegmentTensor):
         return dist(q, p)
@@ -382,7 +382,12 @@ def dist(
     if isinstance(p, PointTensor) and isinstance(q, PolygonTensor):
         return dist(q, p)
     if isinstance(p, PolygonTensor) and isinstance(q, PointTensor):
-        result = np.min([dist(e, q) for e in p.edges], axis=0)
+        # distance to the boundary: minimum over the edges (the edge axis is the last collection axis of the edges)
+        edges = p._edges
+        result = np.min(
+            [dist(SegmentCollection.from_array(edges[..., i, :, :]), q) for i in range(edges.shape[-3])],
+            axis=0,
+        )
         if p.dim > 2:
             r = p._plane.project(q)
             return np.where(p.contains(r), dist(r, q), result)
